@@ -142,6 +142,7 @@ func checkC03(c *Ctx) {
 	c.CovSet("exhaustive", true)
 	c.CovSet("max_cases", maxCases)
 	if rejected > 0 {
-		c.Fatal("%d well-formed switch programs were rejected by the compiler", rejected)
+		o := rejectedExample.o
+		c.Violate(Violation{What: fmt.Sprintf("%d well-formed switch programs were rejected by the compiler (first: %s)", rejected, rejectedExample.err), Source: rejectedExample.src, Opts: &o})
 	}
 }
